@@ -99,7 +99,73 @@ var panicClass = map[string]string{
 // unreachable from the roots.
 func isStubText(t string) bool { return t == `"unimplemented"` }
 
+// stubVia: reviewed stubs that the call graph reaches only through one method of
+// a dependency whose receiver instances the graph cannot tell apart. Each row
+// is re-validated structurally on every run (see validateStubVia).
+var stubVia = map[string]struct {
+	via, callerType, field, producer, why string
+}{
+	" (*wsNetConn).LocalAddr":  {"(*github.com/gorilla/websocket.Conn).LocalAddr", "clientTunnelWebSocket", "wconn", "github.com/gorilla/websocket.Dialer.DialContext", "websocket.Conn.LocalAddr is called only on the client tunnel's connection, which comes from Dialer.DialContext and wraps a real socket; wsNetConn exists only inside the server-side connection made by Upgrade"},
+	" (*wsNetConn).RemoteAddr": {"(*github.com/gorilla/websocket.Conn).RemoteAddr", "clientTunnelWebSocket", "wconn", "github.com/gorilla/websocket.Dialer.DialContext", "websocket.Conn.RemoteAddr is called only on the client tunnel's connection, which comes from Dialer.DialContext and wraps a real socket; wsNetConn exists only inside the server-side connection made by Upgrade"},
+}
+
+// validateStubVia: every in-scope call of `via` has a receiver loaded from
+// callerType.field, and that field is only ever assigned result #0 of producer.
+func validateStubVia(p *core.Prog, via, callerType, field, producer string) (bool, string) {
+	f := p.Field("", callerType, field)
+	if f == nil {
+		return false, callerType + "." + field + " not found"
+	}
+	n := 0
+	for _, fn := range p.SrcFuncs() {
+		for _, b := range fn.Blocks {
+			for _, in := range b.Instrs {
+				ci, ok := in.(ssa.CallInstruction)
+				if !ok {
+					continue
+				}
+				cal := ci.Common().StaticCallee()
+				if cal == nil || cal.String() != via {
+					continue
+				}
+				n++
+				recv := ci.Common().Args[0]
+				u, ok := recv.(*ssa.UnOp)
+				if !ok {
+					return false, "call of " + via + " at " + p.Pos(in.Pos()) + " on a value that is not " + callerType + "." + field
+				}
+				fa, ok := u.X.(*ssa.FieldAddr)
+				if !ok || core.FieldOfAddr(fa) != f {
+					return false, "call of " + via + " at " + p.Pos(in.Pos()) + " on a value that is not " + callerType + "." + field
+				}
+			}
+		}
+	}
+	if n == 0 {
+		return false, "no in-scope call of " + via
+	}
+	for _, acc := range p.FieldAccesses(f) {
+		st, ok := acc.Instr.(*ssa.Store)
+		if !ok || st.Addr != ssa.Value(acc.Addr) {
+			continue
+		}
+		ex, ok := st.Val.(*ssa.Extract)
+		if !ok || ex.Index != 0 {
+			return false, callerType + "." + field + " assigned from something else than " + producer
+		}
+		call, ok := ex.Tuple.(*ssa.Call)
+		if !ok || core.CalleeObjName(call) != producer {
+			return false, callerType + "." + field + " assigned from something else than " + producer
+		}
+	}
+	return true, ""
+}
+
 func reachableFrom(cg *callgraph.Graph, roots []*ssa.Function) map[*ssa.Function]*callgraph.Edge {
+	return reachableFromEx(cg, roots, nil)
+}
+
+func reachableFromEx(cg *callgraph.Graph, roots []*ssa.Function, skip func(e *callgraph.Edge) bool) map[*ssa.Function]*callgraph.Edge {
 	// BFS; value = edge through which first reached (nil for roots)
 	seen := map[*ssa.Function]*callgraph.Edge{}
 	var q []*callgraph.Node
@@ -115,6 +181,9 @@ func reachableFrom(cg *callgraph.Graph, roots []*ssa.Function) map[*ssa.Function
 		n := q[0]
 		q = q[1:]
 		for _, e := range n.Out {
+			if skip != nil && skip(e) {
+				continue
+			}
 			if _, ok := seen[e.Callee.Func]; ok {
 				continue
 			}
@@ -225,6 +294,23 @@ func panicReachRule(c *Ctx, rule, side string, floor int) {
 		_, reach := seen[ps.fn]
 		if isStubText(ps.text) {
 			construct := "stub " + key
+			if row, ok := stubVia[key]; ok && reach {
+				okV, whyV := validateStubVia(p, row.via, row.callerType, row.field, row.producer)
+				// reachable by another route than the reviewed one?
+				other := reachableFromEx(p.CG(), roots, func(e *callgraph.Edge) bool {
+					return e.Callee.Func == ps.fn && e.Caller.Func.String() == row.via
+				})
+				_, stillReach := other[ps.fn]
+				switch {
+				case !okV:
+					r.FailPath(rule, construct, p.Pos(ps.pos), "the reviewed argument for this stub no longer holds: "+whyV, callPath(seen, ps.fn))
+				case stillReach:
+					r.FailPath(rule, construct, p.Pos(ps.pos), "the stub is reachable by a route other than the reviewed one", callPath(other, ps.fn))
+				default:
+					r.OK(rule, construct, p.Pos(ps.pos), "reached in the call graph only through "+row.via+"; reviewed and re-validated: "+row.why)
+				}
+				continue
+			}
 			if reach {
 				r.FailPath(rule, construct, p.Pos(ps.pos), "an unimplemented stub that panics is reachable from a "+side+" goroutine or API entry point: a peer (or ordinary use) can crash the process", callPath(seen, ps.fn))
 			} else {
